@@ -546,3 +546,90 @@ func (k *core) checkBlockingForwarders(rule string) {
 		c.bad(rule, "wrappers", token.NoPos, "no WatchArgs wrapper declaring BlockingReportNewValue found (sourcewrap.wrappedWatchArgs expected)")
 	}
 }
+
+// checkEventsRefreshedOnEnable: the enable helper (the function whose negated
+// result ends the skip-verification phase) flushes the one-slot Events channel
+// on its success path: a config parked there was sent while verification was
+// off. Every return of `true` is preceded by a non-blocking receive on the
+// Events channel, and whatever is sent back on it is the config that was just
+// verified (the Verify receiver / the value replied).
+func (k *core) checkEventsRefreshedOnEnable(rule string) {
+	c := k.c
+	_, origins := k.skipFlagOrigins()
+	n := 0
+	for _, o := range origins {
+		if o.Kind != "not-call" || o.Fn == nil {
+			continue
+		}
+		f := o.Fn
+		n++
+		c.analysed(relName(f))
+		var flush ssa.Instruction
+		for _, op := range chanOps(f) {
+			if !op.Send && op.Sel != nil && !op.Sel.Blocking && chanIsField(op.Chan, k.fUpdates) {
+				flush = op.Sel
+			}
+		}
+		okAll := flush != nil
+		for _, r := range returnsOf(f) {
+			rv := retVals(r)
+			if len(rv) != 1 {
+				continue
+			}
+			if cst, ok := rv[0].(*ssa.Const); ok && cst.Value != nil && cst.Value.ExactString() == "true" {
+				if flush == nil || !domI(flush, r) {
+					okAll = false
+				}
+			}
+		}
+		// re-sends use the verified config
+		verified := k.verifyInvokes(f)
+		for _, op := range chanOps(f) {
+			if op.Send && chanIsField(op.Chan, k.fUpdates) {
+				okV := false
+				for _, vi := range verified {
+					recv := vi.Common().Value
+					if derivesAny(recv, func(x ssa.Value) bool { return x == op.Val }, nil) || derivesAny(op.Val, func(x ssa.Value) bool { return sameValue(x, recv) }, nil) || sharesLoad(op.Val, recv) {
+						okV = true
+					}
+				}
+				if !okV {
+					okAll = false
+				}
+			}
+		}
+		pos := f.Pos()
+		if flush != nil {
+			pos = flush.Pos()
+		}
+		c.check(okAll, rule, relName(f), pos, "the success path of the enable helper takes a parked config out of the Events channel (non-blocking) and only puts the verified one back",
+			"the enable helper switches verification on without flushing the Events channel: a config sent while verification was delayed (never verified) is still the next value a consumer receives after EnableVerification succeeded")
+	}
+	if n == 0 {
+		c.bad(rule, relName(k.monitor), k.monitor.Pos(), "no enable helper found")
+	}
+}
+
+// sharesLoad: a and b derive from the same ViewVersion/load call result.
+func sharesLoad(a, b ssa.Value) bool {
+	root := func(v ssa.Value) ssa.Value {
+		for i := 0; i < 6; i++ {
+			switch x := v.(type) {
+			case *ssa.Extract:
+				return x.Tuple
+			case *ssa.MakeInterface:
+				v = x.X
+			case *ssa.ChangeInterface:
+				v = x.X
+			case *ssa.ChangeType:
+				v = x.X
+			case *ssa.TypeAssert:
+				v = x.X
+			default:
+				return v
+			}
+		}
+		return v
+	}
+	return root(a) == root(b)
+}
